@@ -41,7 +41,14 @@ func VerifC11Poses() {
 	own, obs := w.newConn(), w.newConn()
 	obs.mustJoin("")
 	if verifnd.Bool() {
-		own.mustJoin("") // the owner was in a session of its own before
+		// the owner was in a session of its own before, where it moved an entity of its own (same numeric ids as
+		// the entities it will own in the observed session)
+		own.mustJoin("")
+		pe := own.addEntity(verifnd.Bool(), &hagallpb.Pose{})
+		own.dispatch(&hagallpb.EntityUpdatePose{Type: hagallpb.MsgType_MSG_TYPE_ENTITY_UPDATE_POSE, Timestamp: vts(), EntityId: pe, Pose: &hagallpb.Pose{Px: -5}})
+		verifnd.FireTickers(vFrame)
+		own.pump()
+		own.drain()
 	}
 	own.mustJoin(obs.sid)
 	e1 := own.addEntity(false, &hagallpb.Pose{})
